@@ -198,6 +198,14 @@ def c09_3(ctx):
         for node, callee in calls_to(ctx, f, {PP + '.create_symbol'}):
             b = bind_args(node, callee)
             v = unparse(b.get('value')) if b.get('value') is not None else 'None'
+            if what == 'configuration' and b.get('value') is not None:
+                # the configured value may be converted to its text (`'' if v is None else str(v)`): what is converted must be the configured value itself
+                d_ = deref(ctx, f, b.get('value'), node)
+                if isinstance(d_, ast.IfExp) and isinstance(d_.body, ast.Constant) and d_.body.value == '':
+                    d_ = d_.orelse
+                if isinstance(d_, ast.Call) and unparse(d_.func) == 'str' and len(d_.args) == 1:
+                    d_ = d_.args[0]
+                v = unparse(deref(ctx, f, d_, node))
             ctx.check(v in okv[what], f'register:value-unchanged:{what}', f.site(node),
                       f'the {what} replacement text is handed to the symbol as given (an absent/empty value stays empty)',
                       f'value argument {v}')
@@ -296,6 +304,16 @@ def c09_predefined(ctx):
     """Symbols "defined by the ISA configuration" are the list under predefined.symbols."""
     from rules.shared import cfg_accessors
     cfg_accessors(ctx, only=('predefined_symbols',))
+    # the replacement text of a configured symbol is the text of its value (a YAML number arrives as an int)
+    pi = ctx.repo.func('bespokeasm.assembler.preprocessor.Preprocessor.__init__')
+    cs = [c for c in ast.walk(pi.node) if isinstance(c, ast.Call) and unparse(c.func) == 'self.create_symbol']
+    ok = len(cs) == 1 and len(cs[0].args) >= 2
+    if ok:
+        v = deref(ctx, pi, cs[0].args[1], cs[0])
+        strs = [x for x in ast.walk(v) if isinstance(x, ast.Call) and unparse(x.func) == 'str' and len(x.args) == 1]
+        ok = bool(strs) and all("get('value'" in unparse(deref(ctx, pi, x.args[0], cs[0])) or "['value']" in unparse(deref(ctx, pi, x.args[0], cs[0])) for x in strs)
+    ctx.check(ok, 'register:config-value-as-text', pi.site(cs[0]) if cs else pi.site(), 'a configured symbol is defined with the text of its configured value',
+              unparse(cs[0])[:120] if cs else 'no create_symbol call')
     from rules.shared import exact_lookup
     ctx.rule('C09.6', 'a symbol is found under exactly the name it was defined with', 1)
     exact_lookup(ctx, 'bespokeasm.assembler.preprocessor.Preprocessor.get_symbol', '_symbols', 'a preprocessor symbol', 'lookup:symbol-by-exact-name')
